@@ -243,8 +243,8 @@ def run(ctx):
                      why_fail=f"root attrs={root.attrs}")
             r3.check(dict(body.attrs) == ({"class": style} if style else {}), f"Survey.xml[{desc}]:body.class", "body class is the style setting (only)", xml_fn.loc(),
                      why_fail=f"body attrs={body.attrs}")
-            r3.check(order.index("validate") < order.index("model") and order.index("validate") < order.index("control") and order[0] == "validate",
-                     f"Survey.xml[{desc}]:validate-first", "validation precedes all generation", xml_fn.loc(), why_fail=f"order={order}")
+            r3.check("validate" in order and "model" in order and "control" in order and order.index("validate") < order.index("model") and order.index("validate") < order.index("control") and order[0] == "validate",
+                     f"Survey.xml[{desc}]:validate-first", "validation precedes all generation, on every call (the survey may have been edited since the last one)", xml_fn.loc(), why_fail=f"order={order}")
     # model children order
     xm = scls.methods.get("xml_model")
     for trans in (False, True):
